@@ -24,7 +24,9 @@ FocusCharsOf(v, name) == FocusChars(DomainOf(v, name)) \cup (IF name \in {"tag",
 \* case-insensitive, so the API admits them; whether the value keeps its spelling is for the round trip to show), and for the
 \* service URI the two schemes RFC 8183 allows
 PForms(name) == CASE name = "service_uri" -> {"plain", "caps", "https"}
-                  [] name \in {"sia_base", "rrdp_notification_uri", "cert_url", "issued_cert_url", "uri"} -> {"plain", "caps"}
+                  \* (a publication base is a directory; the API also takes one written without its final slash)
+                  [] name = "sia_base" -> {"plain", "caps", "noslash"}
+                  [] name \in {"rrdp_notification_uri", "cert_url", "issued_cert_url", "uri"} -> {"plain", "caps"}
                   [] OTHER -> {"plain"}
 \* what the field holds for a focus string: free text is the string itself, URIs get it as their last path segment
 Prefix(v, name, pf) ==
@@ -35,11 +37,11 @@ Prefix(v, name, pf) ==
       [] name \in {"cert_url", "issued_cert_url", "uri"} ->
             IF pf = "caps" THEN <<"RSYNC://Host.Example/module/dir/">> ELSE <<"rsync://host.example/module/dir/">>
       [] OTHER -> <<>>
-Suffix(v, name) ==
-    CASE name = "sia_base" -> <<"/">>
+Suffix(v, name, pf) ==
+    CASE name = "sia_base" -> IF pf = "noslash" THEN <<>> ELSE <<"/">>
       [] name \in {"cert_url", "issued_cert_url"} -> <<".cer">>
       [] OTHER -> <<>>
-FieldValue(v, name, str, pf) == Prefix(v, name, pf) \o str \o Suffix(v, name)
+FieldValue(v, name, str, pf) == Prefix(v, name, pf) \o str \o Suffix(v, name, pf)
 ListLike == {"prov_list_response", "pub_list_reply", "pub_delta", "pub_error_reply"}
 \* the shape of an issuance request picks the form of its resource limit: one family, two, all three, one family limited to
 \* the EMPTY set (RFC 6492: "no resources of that kind", distinct from an absent limit), all three limited to the empty set
